@@ -148,26 +148,57 @@ func cmdCheck(args []string) int {
 	// C08/C09 are decided by frames: every frame obligation of every function under contract
 	// counts, plus the package-wide sweeps
 	framesProp := P == "C08" || P == "C09"
+	// Every function under contract is generated. An obligation counts for P when its clause is
+	// tagged with P, or when it belongs to a function in P's cone - the functions whose contracts
+	// name P and everything they (transitively) call - and its clause names no property of its
+	// own (safety, termination, frame and untagged clauses): a caller's proof of a P-clause uses
+	// the callee's contract, so a callee that no longer meets its contract voids that proof.
+	var roots []string
 	for _, p := range u.contractedFunctions() {
 		c := u.resolveLike(p.c)
-		if !framesProp && !contractMentions(c, P) && !contractMentions(p.c, P) {
-			continue
+		if contractMentions(c, P) || contractMentions(p.c, P) {
+			roots = append(roots, u.displayName(p.fn))
 		}
+	}
+	switch P {
+	case "C01":
+		roots = append(roots, "ParseSourceCode")
+	case "C03":
+		roots = append(roots, "(*Runner).Resolve", "fun*")
+	}
+	cone := u.reachableFromNames(roots...)
+	if rc := u.funcs["(*Runner).resolveCallExpression"]; rc != nil && cone[rc] {
+		// builtins are called reflectively through the table
+		for f := range u.reachableFromNames("fun*") {
+			cone[f] = true
+		}
+	}
+	for _, p := range u.contractedFunctions() {
+		c := u.resolveLike(p.c)
 		fc := u.verifyFunction(p.fn, c)
 		keep := false
 		for _, ob := range fc.obs {
-			if hasTag(ob.Tags, P) || (framesProp && ob.Kind == "frame") {
+			if ob.Kind == "cover" {
+				continue
+			}
+			if hasTag(ob.Tags, P) || (framesProp && ob.Kind == "frame") || (cone[p.fn] && !ob.OwnTags) {
 				obs = append(obs, ob)
 				keep = true
 			}
 		}
-		if keep || !framesProp || len(fc.errs) > 0 {
+		if keep || len(fc.errs) > 0 && cone[p.fn] {
 			fcs = append(fcs, fc)
 		}
 	}
 	var sweeps []sweepResult
 	if framesProp {
 		sweeps = u.runSweeps(u.inlined)
+	} else if P == "C10" || P == "C07" {
+		for _, sw := range u.runSweeps(u.inlined) {
+			if sw.Name == "package#sweep.data-reads" {
+				sweeps = append(sweeps, sw)
+			}
+		}
 	}
 	// global facts are obligations discharged by ground evaluation
 	var gfFailed []string
